@@ -3,17 +3,18 @@
 # and nothing needs to be fetched.
 set -e
 cd "$(dirname "$0")"
+R=${VERIF_REPO:-/repo}   # the registered checks always use /repo; a background sweep may point at a snapshot
 {
   echo "module verif/harness"
   echo
-  sed -n '/^go /p' /repo/go.mod
+  sed -n '/^go /p' $R/go.mod
   echo
   echo "require github.com/elnosh/gonuts v0.0.0"
   echo
-  sed -n '/^require (/,/^)/p' /repo/go.mod
+  sed -n '/^require (/,/^)/p' $R/go.mod
   echo
-  sed -n '/^replace /p' /repo/go.mod
-  echo "replace github.com/elnosh/gonuts => /repo"
+  sed -n '/^replace /p' $R/go.mod
+  echo "replace github.com/elnosh/gonuts => $R"
 } > go.mod.new
 if ! cmp -s go.mod.new go.mod; then mv go.mod.new go.mod; else rm go.mod.new; fi
-cp /repo/go.sum go.sum
+cp $R/go.sum go.sum
